@@ -12,23 +12,31 @@ CFG = {
     "prop_file": "Properties/C13.v",
     "run_modules": ["Verif.C13.Run"],
     "coq_dirs": ["C13"],
-    "n": {"quick": 1000, "thorough": 100000},
-    "shard": 64,
-    "max_report": 12,
+    "n": {"quick": 2400, "thorough": 150000},
+    "shard": 150,
+    "max_report": 8,
     "level": "proof",
-    "rule": ("45% rt: a random Go type (nesting <= 4 of reflect.StructOf/PtrTo/SliceOf/ArrayOf/MapOf[string|int*|uint*|float*]/FuncOf "
+    "rule": ("34% rt: a random Go type (nesting <= 4 of reflect.StructOf/PtrTo/SliceOf/ArrayOf/MapOf[string|int*|uint*|float*]/FuncOf "
              "incl. variadic and (T, error), interface{}, all numeric kinds, string, bool, *big.Int, time.Time, hand-written structs with "
-             "embedded/unexported/tagged/shadowing fields and methods) and a random value of it under one of the 3 FieldNameMappers: "
-             "Export identity (deep equality + same pointer for ptr/map/slice/func), ExportTo own type, 11 read-only script operations "
-             "without host panic; 10% graph: script-built object graph of 1..6 nodes with sharing/cycles exported once, canonical shape by "
-             "pointer identity vs the model's export-with-cache; 35% hist: 1..20 ops (get/put/defineProperty/putHandle/delete/sort/length=/"
-             "push/pop/splice/reverse, Go-side element and pointee writes, read/get/set/delete/keys through earlier handles) on a *[]Elem "
-             "wrapper, Go-visible and script-visible state compared with the model after every op; 10% map: 1..20 ops on map[string]int / "
-             "map[string]interface{} wrappers with Object.keys/for-in/JSON/spread/entries dumps. non-trivial = rt depth>0, graph with a "
-             "shared/cyclic node, hist with sort/shrink/splice after a handle was taken, map with >3 ops; distinct = by hash of the case. "
-             "The generator stays out of the regions of the open findings C13-F20..F26 (those are replayed from the corpus)."),
-    "theorem_names": ["export_toValue_norm", "export_toValue_id", "live_view_write_then_read", "live_view_frame",
-                      "live_view_fields", "inv_preserved", "handed_out_wrappers_stable", "write_through_live"],
+             "embedded (also nil) pointers/unexported/tagged/shadowing fields and methods, nil funcs/maps/slices) and a random value under one "
+             "of the 3 FieldNameMappers: Export identity (deep equality + same pointer for ptr/map/slice/func), ExportTo own type, 11 script "
+             "operations without host panic; 8% graph: script-built object graph (1..6 nodes, sharing/cycles) exported once, canonical shape "
+             "by pointer identity vs the model's export-with-cache; 7% xto: ONE ExportTo into a random Go struct whose 2..7 fields mix "
+             "interface{} and typed map/slice/struct destinations reaching 4 shared script objects in random order: same object + same (or "
+             "generic) destination type => same Go reference, different objects => different references; 30% hist: 1..20 ops on a *[]Elem "
+             "wrapper (get/put/defineProperty with and without value/putHandle/delete/sort/length=/push/pop/splice/reverse, FAILING "
+             "assignments arr[i]=5 and h.In=5 in strict and sloppy mode, Go-side element and pointee writes, element handles and nested-FIELD "
+             "handles: read/write/reassign/identity) plus an epilogue re-checking identity and liveness of up to 3 field and 3 element "
+             "wrappers handed out earlier; Go-visible and script-visible state compared with the model after every op; 9% map: 1..20 ops on "
+             "map[string]int (also nil) / map[string]interface{} wrappers; 12% gs: 1..20 ops on *[]interface{} / *[]int / *[N]int wrappers "
+             "with Go-side truncation/append/set interleaved with script-side growth (length=, gap-leaving index writes, push), "
+             "defineProperty without value, out-of-range writes on arrays. non-trivial = rt depth>0, graph with a shared/cyclic node, xto with "
+             "a shared pair, hist with sort/shrink/splice after a handle was taken, map with >3 ops, gs with script growth after a Go "
+             "truncation; distinct = by hash of the case. The generator avoids only the region of the open finding C13-F25 (pointer to func)."),
+    "theorem_names": ["export_toValue_norm", "export_toValue_id", "export_records_result", "export_preserves_sharing",
+                      "export_terminates", "live_view_write_then_read", "live_view_frame", "live_view_fields", "inv_preserved",
+                      "handed_out_wrappers_stable", "sort_swap_invisible", "write_through_live", "nested_inv_preserved",
+                      "handed_out_field_wrappers_stable", "field_write_through", "failing_assignment_noop"],
     "allowed_axioms": [],
     "trusted_base": [
         "Coq 8.16.1 kernel + vm_compute (no native_compute); theorems closed under the global context (no axioms)",
@@ -39,7 +47,8 @@ CFG = {
     "assumptions": [
         "PARTIAL: reflect addressability rules, reflect panics, method sets, named scalar types, time.Time/big.Int special cases and the "
         "numeric width conversions of every kind pair are exercised by the harness only; the model carries the dispatch/aliasing logic",
-        "the per-field valueCache of objectGoReflect for nested struct/array fields is not in the model (finding C13-F20 lives there)",
+        "the recursion of setReflectValue over cached nested wrappers is abstracted: a field wrapper is modelled as a reference to its owner",
+        "ExportTo's typed cache (getTyped/putTyped) is not modelled: the xto cases use Go pointer identity as the oracle",
         "the implementation is tied to the model only on the generated values/histories (correspondence), not by proof",
     ],
     "predicates": {
@@ -47,14 +56,16 @@ CFG = {
     },
     "manifest": {
         "text": ("proof (partial): over a Gallina model of the bridge, for ALL values/histories of the model: Export(ToValue g) = normalize g and "
-                 "= g on export-normal values (same address for pointer/map/slice/func kinds); wrapper locations obey the lens laws (script "
-                 "write -> Go read, Go write -> script read, disjoint paths unaffected) incl. promoted fields under any FieldNameMapper; the "
-                 "element-wrapper cache invariant (Live wrappers = cached wrappers) holds along every swap-free history of get/put/delete/"
-                 "length=/Go-write/handle-write and a handed-out wrapper keeps its denotation under every operation that is not a write to it "
-                 "(8 theorems, no axioms). Modelled and checked by correspondence only, no theorem yet: the swap step of sort, the export "
-                 "identity cache on script-built graphs (sharing/cycles), ExportTo. Not expressible in Gallina and therefore only tested: "
-                 "reflect addressability and panics (7 findings C13-F20..F26 found there). Tied to /repo on every run by 1000 (quick) / "
-                 "100000 (thorough) generated values, graphs and histories."),
+                 "= g on export-normal values (same address for pointer/map/slice/func kinds); the cached export of a script-built graph "
+                 "records one result per object, returns that same reference at every later occurrence (sharing, cycles) and terminates on "
+                 "every closed graph; wrapper locations obey the lens laws (script write -> Go read, Go write -> script read, disjoint paths "
+                 "unaffected) incl. promoted fields under any FieldNameMapper; the element-wrapper cache invariant holds along every history "
+                 "of get/put/delete/sort swaps/length=/Go-write/handle-write, a sort swap never changes what any wrapper denotes, a handed-out "
+                 "element wrapper and a handed-out nested-field wrapper keep their denotation under every operation that is not a write to "
+                 "them, writes through them reach the Go value, a failing field assignment is a no-op (16 theorems, no axioms). Modelled and "
+                 "checked by correspondence only: ExportTo's typed cache. Not expressible in Gallina and therefore only tested: reflect "
+                 "addressability and panics (7 findings found there, 6 repaired, C13-F25 open). Tied to /repo on every run by 2400 (quick) / "
+                 "150000 (thorough) generated values, graphs, export targets and histories."),
         "note": ("trusted: Coq kernel + vm_compute; the hand transcription coq/C13/Model.v; the Go harness (its deep-equality and pointer "
                  "identity oracle); reflect, unsafe and the Go runtime are opaque; implementation covered by correspondence, not by proof"),
         "technique": "Rocq proofs over an executable heap/wrapper model (lens laws, cache invariant by induction over histories, fuelled graph export) + differential correspondence against /repo via vm_compute",
